@@ -21,5 +21,5 @@ def register(m):
     m("C11", "c11-sphere-point-vs-cyl", SF, "        if (isinstance(point_, SpherePoint) and\n                self._coordinate_system.coord_system_type != CoordinateSystem.System.SPHERICAL):",
       "        if (isinstance(point_, SpherePoint) and\n                self._coordinate_system.coord_system_type != CoordinateSystem.System.CYLINDRICAL):", "T4")
     m("C11", "c11-vector-field-no-cyl-check", VF, "        if isinstance(\n                point_, CylinderPoint\n        ) and self._coordinate_system.coord_system_type != CoordinateSystem.System.CYLINDRICAL:\n            raise ValueError(\n                f\"Unsupported coordinate system for CylinderPoint: {self._coordinate_system}\")\n", "", "T4")
-    m("C11", "c11-rebase-two-scalars", VV, "for i, scalar in enumerate(self.coordinate_system.coord_system.base_scalars()):", "for i, scalar in enumerate(self.coordinate_system.coord_system.base_scalars()[:2]):", "T5")
+    m("C11", "c11-rebase-two-scalars", VV, "for i, scalar in enumerate(self.coordinate_system.coord_system.base_scalars())\n", "for i, scalar in enumerate(self.coordinate_system.coord_system.base_scalars()[:2])\n", "T5")
     m("C11", "c11-field-rebase-direction", SF, "                coordinate_system.transformation_to_system(\n                self.coordinate_system.coord_system_type))", "                self.coordinate_system.transformation_to_system(\n                coordinate_system.coord_system_type))", "T5")
